@@ -160,6 +160,14 @@ class PEval:
 
     def _fold_text(self, expr: ast.AST, env: Env) -> Any:
         if isinstance(expr, ast.Call) and isinstance(expr.func, ast.Name) \
+                and expr.func.id in ("all", "any") and len(expr.args) == 1 \
+                and not expr.keywords:
+            a = self.value(expr.args[0], env)
+            if isinstance(a, Const) and isinstance(a.value, (list, tuple)):
+                return Const(all(a.value) if expr.func.id == "all"
+                             else any(a.value))
+            return None
+        if isinstance(expr, ast.Call) and isinstance(expr.func, ast.Name) \
                 and expr.func.id == "format" and len(expr.args) == 2 and \
                 not expr.keywords:
             a, b = self.value(expr.args[0], env), self.value(expr.args[1], env)
@@ -338,7 +346,10 @@ class PEval:
             if a is not None and a == b:
                 return a
         if isinstance(expr, (ast.Call, ast.Subscript, ast.BinOp)):
-            v = self._fold_text(expr, env)
+            v = self.value(expr, env) if isinstance(expr, ast.Call) and \
+                isinstance(expr.func, ast.Name) and \
+                expr.func.id in ("all", "any", "len") \
+                else self._fold_text(expr, env)
             if isinstance(v, Const):
                 return bool(v.value)
         return None
@@ -346,6 +357,21 @@ class PEval:
     def _isinstance(self, obj: ast.AST, types: ast.AST,
                     env: Env) -> Optional[bool]:
         v = env.get(src(obj))
+        if isinstance(v, Const) and isinstance(
+                v.value, (list, dict, str, int, float, tuple, set,
+                          type(None))):
+            # a constant of a builtin type against class names: builtin
+            # names are decided by Python, any other class is not matched
+            # by a plain builtin value
+            names = [src(e).split(".")[-1] for e in (
+                types.elts if isinstance(types, ast.Tuple) else [types])]
+            import builtins
+            hit = False
+            for n in names:
+                t = getattr(builtins, n, None)
+                if isinstance(t, type) and isinstance(v.value, t):
+                    hit = True
+            return hit
         if not isinstance(v, Kind):
             return None
         names = [src(e).split(".")[-1] for e in (
@@ -435,7 +461,7 @@ class PEval:
         self.returned = []
         self.stored = []
         self.calls = []
-        res, _ = self._block(stmts, dict(env))
+        res, self.final_env = self._block(stmts, dict(env))
         self._pinned = set()
         return res
 
@@ -447,6 +473,8 @@ class PEval:
     stored: List[Tuple[ast.stmt, Any]] = []
     #: names of callees whose argument values are to be recorded, and the
     #: record: (call, positional values, keyword values)
+    #: bindings at the end of the last specialise() (top-level block)
+    final_env: Env = {}
     watch_calls: Set[str] = set()
     calls: List[Tuple[ast.Call, List[Any], Dict[str, Any]]] = []
 
